@@ -23,26 +23,21 @@ Definition contracted_edge (g : graph) (u v y x : Z) : bool :=
 
 Definition zmem (x : Z) (l : list Z) : bool := existsb (Z.eqb x) l.
 
-(** the bookkeeping of squash_atoms over the `!` pairs [ps] (in edge order) never meets the two defect
-    situations: it never looks up an atom that an earlier contraction removed (stale entry), and never
-    asks to merge an atom with itself (the pairs close a cycle over one atom).  [alive] = the node keys
-    of the graph handed to squash_atoms.  For pairs that form a forest over atoms and whose kept
-    atoms are never removed later this holds (see the Examples); it is decidable. *)
-Fixpoint squash_safe (alive : list Z) (sq : list (Z * Z)) (dead : list Z) (ps : list (Z * Z)) : bool :=
-  match ps with
-  | [] => true
-  | (a, b) :: r =>
-      let keep := sq_get sq a in
-      let rm := sq_get sq b in
-      zmem keep alive && zmem rm alive && negb (zmem keep dead) && negb (zmem rm dead)
-      && negb (Z.eqb keep rm) && squash_safe alive (sq_set rm keep sq) (rm :: dead) r
-  end.
+(** what `while node in squashed: node = squashed[node]` computes on the dicts the loop builds: entries are
+    in insertion order and a value is a root when it is inserted, so chains only run forward and ONE
+    left-to-right pass follows them to the end *)
+Definition sq_pass (sq : list (Z * Z)) (x : Z) : Z :=
+  fold_left (fun cur kv => if Z.eqb cur (fst kv) then snd kv else cur) sq x.
 
-(** the atoms removed by the run, in order *)
-Fixpoint squash_removed (sq : list (Z * Z)) (ps : list (Z * Z)) : list Z :=
+(** the merges squash_atoms performs for the `!` pairs [ps] (in edge order), as (kept, removed); a pair
+    whose two ends already are one atom is skipped *)
+Fixpoint squash_plan (sq : list (Z * Z)) (ps : list (Z * Z)) : list (Z * Z) :=
   match ps with
   | [] => []
-  | (a, b) :: r => let keep := sq_get sq a in let rm := sq_get sq b in rm :: squash_removed (sq_set rm keep sq) r
+  | (a, b) :: r =>
+      let keep := sq_pass sq a in
+      let rm := sq_pass sq b in
+      if Z.eqb keep rm then squash_plan sq r else (keep, rm) :: squash_plan (sq ++ [(rm, keep)]) r
   end.
 
 (** the items squash_atoms iterates over, split into `!` pairs and others *)
